@@ -330,7 +330,31 @@ def edit_step(t, res, wr, src, step, all_args, guess_cap=20000):
     all_args.append(args)
     before = tree_snapshot(os.path.join(wr, "Rules"))
     orig = open(os.path.join(rdir, "Grammar", "grammar.txt"), "rb").read()
-    _text, exc = run_tool("edit_rules", args)
+    decoy = None
+    old_cwd = os.getcwd()
+    if guess_cap > 0 and t.chance(1, 6):
+        # environment: the tool is started from a directory that happens to hold a directory named like the ruleset
+        # (a backup, an export) -- rulesets are looked up under Rules/ next to the tool, never in the working directory
+        import shutil
+        decoy = os.path.join(wr, "cwd_%d" % step)
+        shutil.rmtree(decoy, ignore_errors=True)
+        shutil.copytree(rdir, os.path.join(decoy, src))
+        if opt["copy"] and t.chance(1, 2):
+            os.makedirs(os.path.join(decoy, "other"), exist_ok=True)
+        os.chdir(decoy)
+        res.faults["working_directory_holds_a_directory_named_like_the_ruleset"] += 1
+    try:
+        _text, exc = run_tool("edit_rules", args)
+    finally:
+        os.chdir(old_cwd)
+    if decoy is not None:
+        dsnap = tree_snapshot(decoy)
+        import shutil
+        changed = [k for k, v in dsnap.items() if before.get(k) != v]      # (same relative names as under Rules/)
+        shutil.rmtree(decoy, ignore_errors=True)
+        if changed:
+            res.violate("C20", "file_outside_the_rules_directory_changed", {"files": changed[:4], "args": args, "cwd": "a directory holding %s/" % src})
+            return None
     if exc:
         res.violate("C20", "raised", {"exception": exc[-900:], "args": args, "step": step})
         return None
